@@ -476,7 +476,9 @@ def remove_small_rotations(circuit, param_threshold=1e-3, remove_qubits=False):
     """
 
     rot_gates = {"RX", "RY", "RZ", "CRX", "CRY", "CRZ"}
-    gates = [g for g in circuit._gates if not (g.name in rot_gates and abs(g.parameter) % (2*np.pi) < param_threshold)]
+    # Controlled rotations are 4*pi periodic: CRZ(2*pi) is a controlled (-1), not the identity.
+    periods = {name: 4*np.pi if name in {"CRX", "CRY", "CRZ"} else 2*np.pi for name in rot_gates}
+    gates = [g for g in circuit._gates if not (g.name in rot_gates and abs(g.parameter) % periods[g.name] < param_threshold)]
 
     return Circuit(gates) if remove_qubits else Circuit(gates, n_qubits=circuit.width)
 
